@@ -490,7 +490,7 @@ func (d *dataWorld) opSelect(tp *simkit.Tape, stats map[string]int) {
 	rule := d.rule
 	cond := d.condition(tp, 3)
 	t := rule.table
-	pickAhead := tp.Choose(15)
+	pickAhead := tp.Choose(18)
 	if pickAhead >= 13 {
 		cond = d.qualified(tp, 2) // every column carries its table: the statement names two tables with the same columns
 	}
@@ -540,6 +540,31 @@ func (d *dataWorld) opSelect(tp *simkit.Tape, stats map[string]int) {
 		d1, d2 := tp.Chance(1, 2), tp.Chance(1, 2)
 		sql = fmt.Sprintf("select g, v, id from %s where %s order by g %s, v %s", t, cond, map[bool]string{true: "desc", false: "asc"}[d1], map[bool]string{true: "desc", false: "asc"}[d2])
 		ordered, desc = 2, []bool{d1, d2}
+	case 15:
+		// the ORDER BY column carries its table (or database and table): the field the proxy adds for merging must be written for each sub-table
+		shape = "order-by-qualified-column"
+		q := []string{t, rule.db + "." + t}[tp.Choose(2)]
+		dsc := tp.Chance(1, 2)
+		sql = fmt.Sprintf("select name, v from %s where %s order by %s.id", t, cond, q)
+		if tp.Chance(1, 2) {
+			sql = fmt.Sprintf("select id, name, v from %s where %s order by %s.id", t, cond, q)
+			ordered = 1
+		}
+		if dsc {
+			sql += " desc"
+		}
+		desc = []bool{dsc}
+	case 16:
+		// a table-qualified column inside a function call or arithmetic
+		shape = "qualified-column-in-expression"
+		q := []string{t, rule.db + "." + t}[tp.Choose(2)]
+		sql = fmt.Sprintf("select id, v from %s where abs(%s.v) >= %d and (%s)", t, q, tp.Choose(12), cond)
+		if tp.Chance(1, 2) {
+			sql = fmt.Sprintf("select id, v from %s where %s.v + 1 > %d and (%s)", t, q, tp.Choose(12), cond)
+		}
+	case 17:
+		shape = "group-by-qualified-column"
+		sql = fmt.Sprintf("select g, count(*), sum(v) from %s where %s group by %s.g", t, cond, t)
 	case 13, 14:
 		// joins on the sharding key with the linked child table, or with the global table
 		switch {
